@@ -7,6 +7,8 @@ godebug randseednop=0
 require (
 	github.com/anishathalye/porcupine v1.3.0
 	github.com/echovault/sugardb v0.0.0
+	github.com/hashicorp/memberlist v0.5.0
+	github.com/hashicorp/raft v1.5.0
 )
 
 require (
@@ -22,8 +24,6 @@ require (
 	github.com/hashicorp/go-multierror v1.0.0 // indirect
 	github.com/hashicorp/go-sockaddr v1.0.0 // indirect
 	github.com/hashicorp/golang-lru v0.5.0 // indirect
-	github.com/hashicorp/memberlist v0.5.0 // indirect
-	github.com/hashicorp/raft v1.5.0 // indirect
 	github.com/hashicorp/raft-boltdb v0.0.0-20230125174641-2a8082862702 // indirect
 	github.com/mattn/go-colorable v0.1.12 // indirect
 	github.com/mattn/go-isatty v0.0.14 // indirect
